@@ -13,4 +13,5 @@ var (
 	ErrWrongKey            = errors.Register(ModuleName, 6, "wrong key")
 	ErrNotEnoughReward     = errors.Register(ModuleName, 7, "not enough custody reward")
 	ErrWrongTargetAddr     = errors.Register(ModuleName, 8, "wrong target address")
+	ErrNotCustodian        = errors.Register(ModuleName, 9, "sender is not a custodian of the account")
 )
